@@ -34,6 +34,8 @@ def corpus():
         "ramp 0 200000 1000000000 %d %s" % (86400 * S, ints([i * 3600 * S for i in range(26)])),   # long steep ramp
         "ramp 10 0 1000000000 %d %s" % (10 * S, ints([0, S, 5 * S, 10 * S - 1, 10 * S, 10 * S + 1, 11 * S])),
         "ramp 5 5 1000000000 %d 0" % (10 * S),
+        "ramp 100 20 1000000000 %d %s zero" % (20 * S, ints([i * S // 2 for i in range(44)])),     # C10m: the ramp starts at its first evaluation also when that is the zero time
+        "ramp 0 50 100000000 %d %s zero" % (5 * S, ints([0, 1, S, 2 * S, 5 * S - 1, 5 * S, 6 * S])),
         "ramp 1 2 1000000000 500000000 0",
         "ramp 0 100 1000000000 2500000000 %s" % ints([0, S // 2, S, 3 * S // 2, 2 * S, 2 * S + S // 4, 2 * S + 2 * S // 5, 5 * S // 2, 5 * S // 2 + 1]),   # 2.5 units
         "ramp 10 70 60000000000 90000000000 %s" % ints([0, 30 * S, 60 * S, 75 * S, 90 * S, 91 * S]),
